@@ -1,4 +1,5 @@
 (* C06 - NewMnemonic is fail-closed and uses exactly the bytes its source delivers. *)
+From B39 Require Import Proofs.Calls.
 From B39 Require Import Lib.Base Lib.Sha256 Model.GenTypes Model.Model Spec.Bip39Spec.
 From B39 Require Import Proofs.Gates Proofs.Tables Proofs.Reader Proofs.Api.
 
@@ -31,6 +32,11 @@ Proof. vm_compute. reflexivity. Qed.
 Example C06_short :
   fst (NewMnemonic 12 2 [(repeat x00 15, None); ([], Some IoEOF)]) = Ret ([], Some (ErrIO IoUnexpectedEOF)).
 Proof. vm_compute. reflexivity. Qed.
+
+(* the functions this property is about, and every package function they reach, call only what the model
+   accounts for (closed world of callees, computed on coq/Gen/Calls.v, regenerated from the source every run) *)
+Theorem C06_callees : reach_ok "NewMnemonicByEntropy" = true /\ reach_ok "NewMnemonic" = true /\ reach_ok "fromEntropy" = true.
+Proof. exact calls_generator. Qed.
 
 Print Assumptions C06_newmnemonic.
 Print Assumptions C06_read_full.
